@@ -26,7 +26,7 @@ PROPS = {
         manifest=dict(
             category="proof",
             text="Coq theorems over a Gallina transcription of configvalidator.go and of the configuration load path: every accepted configuration satisfies the documented rules conjunct by conjunct (single root without limits, valid unique names, quantities readable, each maximum within the maximum of every ancestor also through levels that leave a type undefined, guaranteed within maximum, saturating sum of children's guaranteed within the parent's guaranteed and maximum, max-applications non-increasing, limits within their queue); user/group limits are proved within the limit of every ancestor that names the user and within every ancestor's wildcard when none names it, the stronger documented reading is refuted with a witness accepted by the real code (known finding); placement rules are proved resolvable up to one refuted corner (known finding); loading an accepted configuration into a new or running scheduler is proved free of hierarchy/ACL/quantity/limit errors and of panics, and fully successful under the two side conditions that exclude the recorded findings (unbuildable placement rules, reload dropping a partition); accept/reject is proved independent of the order of every map of the configuration. Five defects found this way were repaired by fix: commits.",
-            note="theorems are about the hand-written model (coq/Conf); YAML decoding, regexp.Compile, float parsing of resource weights and the Go runtime are outside the model; the tie to the code is differential (250 generated documents per quick run + 30 pinned ones, each validated 3 times and in 2 permuted renderings, loaded twice); strings are modelled as ASCII bytes; one RM; reload is exercised on schedulers without applications (C16 covers running state)",
+            note="theorems are about the hand-written model (coq/Conf); YAML decoding, regexp.Compile, float parsing of resource weights and the Go runtime are outside the model; the tie to the code is differential (250 generated documents + 125 targeted limit-chain documents per quick run + 34 pinned ones, each validated 3 times and in 2 permuted renderings, loaded twice); strings are modelled as ASCII bytes; one RM; reload is exercised on schedulers without applications (C16 covers running state)",
             technique="Coq proof (induction over queue trees, relational proof for permutations) + model/implementation correspondence + oracle on implementation output"),
         assumptions=[
             "strings are ASCII (ToLower / TrimSpace / regexps are modelled on bytes < 128)",
